@@ -674,6 +674,9 @@ func (ck *checker) keySchema(sample []key, prefixes [][]byte, suffixes []sfx) {
 	}
 	blk, _ := enc.Finish(len(rows), enc.Size())
 	blk = crbytes.CopyAligned(blk)
+	// The decoder and the seeker keep unsafe pointers into blk, invisible to the
+	// garbage collector (production pins the buffer through the block cache).
+	defer runtime.KeepAlive(blk)
 	var dec colblk.DataBlockDecoder
 	bd := dec.Init(&cockroachkvs.KeySchema, blk)
 	var meta colblk.KeySeekerMetadata
